@@ -37,7 +37,7 @@ class Repo:
 
     PKG = "rl_blox"
 
-    def __init__(self, root: str = "/repo", overlay: dict | None = None):
+    def __init__(self, root: str = "/repo", overlay: dict | None = None, expand: bool = True):
         """``overlay`` maps a path relative to root to replacement source text (used by the self-test: mutants
         are analysed in memory, nothing is written to disk and nothing is executed)."""
         self.root = os.path.abspath(root)
@@ -72,6 +72,10 @@ class Repo:
                 mi = ModuleInfo(mod, path, rel, src, tree)
                 self._index(mi)
                 self.modules[mod] = mi
+        self.inlined = []
+        if expand:
+            from .expand import expand_repo
+            self.inlined = expand_repo(self)
 
     # ------------------------------------------------------------------
     def digest(self) -> str:
